@@ -276,6 +276,10 @@ def jobs(tier, seed):
     add('nonlin', model='exp', xs=[0.5, 1.0, 2.0], ylay=[E, E, F_], method='migrad')
     add('nonlin', model='cosh', xs=[0.0, 1.0, 3.0], ylay=[E, E, F_], method='Nelder-Mead')
     add('nonlin', model='exp', xs=[0.5, 1.0, 2.0], ylay=[E, E, F_], num_grad=True)
+    # every minimiser family with the correlated chi-square (the second minimisation must be handed the correlated function)
+    add('nonlin', model='exp', xs=[0.5, 1.0, 2.0], ylay=[E, E, E], correlated=True, method='Nelder-Mead')
+    add('nonlin', model='rational', xs=[0.5, 1.0, 2.0], ylay=[E, E, Ei], correlated=True, method='Powell')
+    add('nonlin', model='cosh', xs=[0.0, 1.0, 3.0], ylay=[E, E, E], correlated=True, method='migrad')
     add('tls', model='line', xlay=[E, E, E], ylay=[E, E, E])
     # the minimiser contract including its failure mode: a fit that did not converge must raise, never return a point that is not stationary
     add('tls', model='exp', xlay=[E, E, E], ylay=[E, F_, E], minfail=True)
